@@ -225,7 +225,7 @@ func scenario(c cfg) *mcx.Scenario {
 func main() {
 	r := ev.Start("C16", "model_checking")
 	var scs []*mcx.Scenario
-	limits := [][2]int64{{1, 1}, {2, 1}, {2, 2}, {0, 1}, {1, 0}, {1, 2}}
+	limits := [][2]int64{{1, 1}, {2, 1}, {2, 2}, {0, 1}, {1, 0}, {1, 2}, {0, 2}, {3, 2}}
 	for li, l := range limits {
 		for _, p := range []string{"ppp", "ppq"} {
 			scs = append(scs, scenario(cfg{Total: l[0], Endpoint: l[1], Paths: p}))
@@ -247,6 +247,7 @@ func main() {
 		// 5 requests: every event order is ~10^8 executions per setting; the tightest setting only
 		scs = append(scs, scenario(cfg{Total: 1, Endpoint: 1, Paths: "ppppp"}))
 	}
+	addConn(r, &scs)
 	sum := mcx.Explore(r, scs, mcx.Config{Wall: ev.Pick(r, 3*time.Minute, 25*time.Minute)})
 	mcx.Report(r, scs, sum)
 	mcx.RacePass(r, 8, "net/client/limitParallelRequests")
